@@ -392,3 +392,17 @@ Proof.
   unfold L.wake_ok in W. apply andb_true_iff in W as [W1 W2].
   eapply LP.no_stall_reach; eauto.
 Qed.
+
+(* the queue view with q_iter spelled out *)
+Corollary c09_iteration_queue_view_spelled S step h hq fb runs eff qw wfd tfd st e pending choice st' e' pend' act log ran :
+  P.loop_iter_full_env S step h hq fb runs eff qw wfd tfd st e pending choice
+    = P.Ok (st', e', pend', (act, log, ran)) ->
+  ran = pending ++ flat_map (fun ck => hq (fst ck) (snd ck)) log /\
+  pend' = P.functors_queued fb ran /\
+  P.k_wake e' = (P.k_wake (P.apply_effects eff log e)
+                 + (if qw true false true
+                    then N.of_nat (length (flat_map (fun ck => hq (fst ck) (snd ck)) log)) else 0)
+                 + (if qw true true true then N.of_nat (length pend') else 0))%N.
+Proof.
+  intros H. apply c09_iteration_queue_view in H. unfold q_iter in H. injection H as -> -> ->. auto.
+Qed.
